@@ -212,16 +212,22 @@ def cells(vs: VSeq, facts: list):
     return z3.simplify(r)
 
 
-def psum_nonneg_lemma(a, lo, hi):
+def psum_nonneg_lemma(a, lo, hi, with_nonpos=False):
     """Lemma instance, valid for every int array a and bounds lo, hi (proof by induction on hi - lo; the
-    induction step is machine-checked by vf.pyvc.lemmalib): if a is non-negative on [lo, hi) then the
+    base case and induction step are machine-checked on every run by vf.pyvc.lemmalib): if a is non-negative on [lo, hi) then the
     sum over [lo, hi) is non-negative and bounds every element of the range."""
     k = z3.Int(fresh_name("mk"))
     e = z3.Int(fresh_name("me"))
+    k2 = z3.Int(fresh_name("mk"))
     nonneg = z3.ForAll([k], z3.Implies(z3.And(lo <= k, k < hi), a[k] >= 0), patterns=[a[k]])
+    nonpos = z3.ForAll([k2], z3.Implies(z3.And(lo <= k2, k2 < hi), a[k2] <= 0), patterns=[a[k2]])
     total = psum(a, hi) - psum(a, lo)
     bound = z3.ForAll([e], z3.Implies(z3.And(lo <= e, e < hi), a[e] <= total), patterns=[a[e]])
-    return z3.Implies(nonneg, z3.And(z3.Implies(lo <= hi, total >= 0), bound))
+    # second half (same induction): non-positive on [lo, hi) => the sum is non-positive
+    if not with_nonpos:
+        return z3.Implies(nonneg, z3.And(z3.Implies(lo <= hi, total >= 0), bound))
+    return z3.And(z3.Implies(nonneg, z3.And(z3.Implies(lo <= hi, total >= 0), bound)),
+                  z3.Implies(z3.And(nonpos, lo <= hi), total <= 0))
 
 
 def piece_sum(p: Piece, facts: list):
